@@ -89,8 +89,12 @@ def gen_values(g, n):
         r = g.random()
         if r < 0.35:
             out.append(g.choice(SPECIAL))
-        elif r < 0.6:
+        elif r < 0.5:
             out.append((g.random() - 0.5) * 20)
+        elif r < 0.6:
+            # the transition zones of the exponential-based functions: |x| between 15 and 45, where exp(-|x|) is
+            # small but not yet below half an ulp (softplus(x) - x, 1 - sigmoid(x), 1 - tanh(x) still matter)
+            out.append(g.choice([-1.0, 1.0]) * (15.0 + 30.0 * g.random()))
         elif r < 0.8:
             out.append((g.random() - 0.5) * 1600)
         else:
